@@ -1,14 +1,14 @@
-\* composition, sends complete in order: poller + fan-out + epoch notifier, all head movements (up, same, down, RPC errors)
+\* composition with a subscriber that takes the epoch events when it wants to (parked in the notifier's fan-out)
 CONSTANTS
-  Ns = {1,2,3}
-  Starts = {0,1,4}
-  Ps = {0,34,50,99}
-  Epochs = 2
+  Ns = {1,2}
+  Starts = {0,1}
+  Ps = {0,50,99}
+  Epochs = 3
   MaxPolls = 5
-  MaxErrs = 2
+  MaxErrs = 1
   MaxInflight = 2
   Reorder = FALSE
-  SlowSub = FALSE
+  SlowSub = TRUE
 INIT Init
 NEXT Next
 VIEW view
